@@ -149,6 +149,20 @@ fn main() {
                 2
             }
         }
+        "exec" => {
+            // execute one generated case (debugging aid): mhsim exec --prop Cxx --index i
+            let pid = arg(&args, "--prop").unwrap_or_default();
+            let prop = lookup(&pid).expect("property");
+            let index: u64 = arg(&args, "--index").and_then(|s| s.parse().ok()).unwrap_or(0);
+            let seed = arg(&args, "--seed").and_then(|s| s.parse().ok()).unwrap_or(DEFAULT_SEED);
+            let mut rng = rng::Rng::new(rng::run_seed(seed, &pid, index));
+            let case = prop.gen(&mut rng, Tier::Quick, index);
+            let mut st = core::Stats::default();
+            let out = prop.exec(&case, &mut st);
+            println!("{:?}", out.map(|o| (o.violation, o.nontrivial)));
+            println!("probes {:?}", st.probes);
+            0
+        }
         "gen" => {
             let pid = arg(&args, "--prop").unwrap_or_default();
             let prop = lookup(&pid).expect("property");
